@@ -8,6 +8,7 @@ receive[type] lies between the frames of that type with a valid length and all f
 """
 from hypothesis import strategies as st
 
+from vlib import corpus
 from vlib import refcodec as rc
 from vlib import session as ss
 from vlib.driver import Driver
@@ -15,6 +16,7 @@ from vlib.runner import hyp_run
 
 PROPERTY = 'C18'
 RULE = ('random walks over the C01 alphabet + raw frames of each type with body length below/at/above the minimum + '
+        'well-formed UPDATEs of every address family / route type incl. families without a decoder + '
         'REST sends (update, route-refresh, bin_update); statistic endpoint compared with the simulated transport after '
         'every step. Non-trivial = a step in which a NOTIFICATION is sent or >= 2 message types move; distinct by '
         'sequence.')
@@ -33,6 +35,7 @@ class Mon(object):
         self.d = None
 
 
+BODIES = corpus.update_bodies()
 EXTRA = [['raw', 4, 1], ['raw', 3, 1], ['raw', 3, 0], ['raw', 5, 3], ['raw', 128, 5], ['raw', 1, 5], ['raw', 2, 3],
          ['rest-update'], ['rest-rr'], ['rest-bin'], ['queue-update'], ['rest-rr-unsupported'], ['rest-update-bad'],
          ['rest-rr-malformed']]
@@ -44,6 +47,7 @@ def enabled(d):
         ev += [list(e) for e in EXTRA[:7]]
     if d.sim.state == 'ESTABLISHED':
         ev += [list(e) for e in EXTRA[7:]]
+        ev.append(['updv'])       # a well-formed UPDATE of some family / route type: ['updv', k] = corpus body k
     return ev
 
 
@@ -51,6 +55,8 @@ def frame_of(d, ev):
     from vlib.driver import encode_event
     if ev[0] == 'raw':
         return rc.frame(ev[1], b'\x00' * ev[2])
+    if ev[0] == 'updv':
+        return rc.frame(rc.UPDATE, BODIES[ev[1] % len(BODIES)][1])
     return encode_event(d.sim, ev, d.nupd + 1)
 
 
@@ -58,11 +64,11 @@ def apply(d, mon, ev):
     sim = d.sim
     nt = False
     k = ev[0]
-    if k in ('raw',):
+    if k in ('raw', 'updv'):
         c = d.live()[0]
         data = frame_of(d, ev)
         if sim.reactor.peer_send(c, data):
-            mon.rx.setdefault(c.id, []).append((ev[1], ev[2]))
+            mon.rx.setdefault(c.id, []).append((ev[1], ev[2]) if k == 'raw' else (rc.UPDATE, len(data) - 19))
         sim.reactor.settle(fire_due=True)
         d.history.append(ev)
     elif k == 'rest-update':
@@ -164,8 +170,13 @@ def pick(en, choice):
             w = 2
         if ev[0] == 'stop':
             w = 1
+        if ev[0] == 'updv':
+            w = 3
         weighted += [ev] * w
-    return weighted[choice % len(weighted)]
+    ev = weighted[choice % len(weighted)]
+    if ev == ['updv']:
+        ev = ['updv', (choice // len(weighted)) % len(BODIES)]
+    return ev
 
 
 def run(cfg, choices=None, events=None):
@@ -178,7 +189,7 @@ def run(cfg, choices=None, events=None):
     for x in seq:
         en = enabled(d)
         ev = pick(en, x) if choices is not None else list(x)
-        if ev not in en:
+        if ev not in en and not (ev[0] == 'updv' and ['updv'] in en):
             return d, [], False
         r, nt = apply(d, mon, ev)
         nontrivial = nontrivial or nt
@@ -188,12 +199,47 @@ def run(cfg, choices=None, events=None):
     return d, res, nontrivial
 
 
+def kinds_case(case):
+    """one well-formed UPDATE of the given kind on a fresh Established session: received Updates goes from 0 to 1"""
+    name, body = BODIES[case['body']]
+    sim, c = ss.new_established(as4=True)
+    r = sim.reactor
+    for i in range(case.get('before', 0)):
+        r.peer_send(c, ss.marked_update(i + 1)[0])
+        r.settle(fire_due=True)
+    code0, b0 = sim.rest('GET', '/v1/peer/10.0.0.2/statistic')
+    r.peer_send(c, rc.frame(rc.UPDATE, body))
+    r.settle(fire_due=True)
+    code1, b1 = sim.rest('GET', '/v1/peer/10.0.0.2/statistic')
+    if code0 != 200 or code1 != 200:
+        return [('statistic-endpoint:%s' % code1, 'GET statistic answered %s / %s' % (code0, code1))]
+    out = []
+    want = dict(b0['receive'])
+    want['Updates'] = want.get('Updates', 0) + 1
+    for name_ in ('Opens', 'Updates', 'Notifications', 'Keepalives', 'RouteRefresh'):
+        if b1['receive'].get(name_) != want.get(name_):
+            out.append(('receive:%s:%s:after-one-update' % (name_, 'under' if (b1['receive'].get(name_) or 0) < want.get(name_, 0) else 'over'),
+                        'one well-formed UPDATE (%s, %s) delivered: statistic %s went %r -> %r'
+                        % (name, body.hex()[:80], name_, b0['receive'].get(name_), b1['receive'].get(name_))))
+    return out
+
+
 def shards(tier):
-    return [{'name': 'walks-%d' % i, 'kind': 'hyp', 'examples': 150 if tier == 'quick' else 3000, 'hypothesis': True,
+    return [{'name': 'update-kinds', 'kind': 'kinds'}] + [{'name': 'walks-%d' % i, 'kind': 'hyp', 'examples': 150 if tier == 'quick' else 3000, 'hypothesis': True,
              'steps': 40 if tier == 'quick' else 80} for i in range(8 if tier == 'quick' else 16)]
 
 
 def run_shard(spec, seed, col, tier):
+    if spec['kind'] == 'kinds':
+        for k in range(len(BODIES)):
+            for before in (0, 2):
+                case = {'k': 'kinds', 'body': k, 'before': before, 'name': BODIES[k][0]}
+                res = kinds_case(case)
+                col.case(case, True, labels=['update-kinds'])
+                for sig, detail in res:
+                    col.fail(sig, case, detail)
+        return
+
     def body(case):
         d, res, nt = run(case['cfg'], choices=case['choices'])
         explicit = {'cfg': case['cfg'], 'events': d.history}
@@ -202,9 +248,11 @@ def run_shard(spec, seed, col, tier):
             col.fail(sig, explicit, detail)
     strat = st.fixed_dictionaries({'cfg': st.sampled_from([{'hold': 180, 'idle_hold': 30, 'connect_retry': 60},
                                                            {'hold': 9, 'idle_hold': 5, 'connect_retry': 60}]),
-                                   'choices': st.lists(st.integers(0, 999), min_size=spec['steps'] // 2, max_size=spec['steps'])})
+                                   'choices': st.lists(st.integers(0, 99999), min_size=spec['steps'] // 2, max_size=spec['steps'])})
     hyp_run(col, strat, body, seed, spec['examples'])
 
 
 def replay(case):
+    if case.get('k') == 'kinds':
+        return kinds_case(case)
     return run(case['cfg'], events=case['events'])[1]
